@@ -49,7 +49,13 @@ func c17Build(base string, levels []int) []string {
 		cur = filepath.Join(cur, name)
 		dirs[i] = cur
 		_ = os.MkdirAll(cur, 0o755)
-		w := func(name, content string) { _ = os.WriteFile(filepath.Join(cur, name), []byte(content), 0o644) }
+		w := func(name, content string) {
+			_ = os.WriteFile(filepath.Join(cur, name), []byte(content), 0o644)
+			if name == "spokfile" {
+				// whatever the umask of whoever created it: group/world writable, private, read-only, executable
+				_ = os.Chmod(filepath.Join(cur, name), []os.FileMode{0o644, 0o664, 0o666, 0o600, 0o444, 0o755, 0o640}[(i+cfg)%7])
+			}
+		}
 		sf := fmt.Sprintf("# level %d\ntask lvl%s() {}\n", i, strings.Repeat("x", i+1))
 		switch c17Configs[cfg] {
 		case "before":
@@ -449,7 +455,7 @@ func c17Run(c *core.Ctx) bool {
 	cov := map[string]any{
 		"evaluations":         res.Evaluations,
 		"distinct_nontrivial": distinct,
-		"rule":                fmt.Sprintf("every directory chain of depth %v (plus a seeded sample one level deeper and nine chains of depth 33-70) where each level independently holds one of %v (%d chains) x every start level x stop in {each level, an unrelated sibling directory, a directory below start, the directory above the chain}, each both directly and through a symbolic link to the chain's base; file.Find is called in-process with a counting logger and the find.iter hook enforcing the step bound (iterations <= path components of start + 1); a sample also runs the race-built binary (--show, HOME = stop, cwd = start). non-trivial = every (chain, start, stop) triple (distinct by construction) whose result was compared with the reference", c17Depths(c), c17Configs, len(chains)),
+		"rule":                fmt.Sprintf("every directory chain of depth %v (plus a seeded sample one level deeper and nine chains of depth 33-70) where each level independently holds one of %v (%d chains) (spokfiles carry the modes 0644/0664/0666/0600/0444/0755/0640 in turn) x every start level x stop in {each level, an unrelated sibling directory, a directory below start, the directory above the chain}, each both directly and through a symbolic link to the chain's base; file.Find is called in-process with a counting logger and the find.iter hook enforcing the step bound (iterations <= path components of start + 1); a sample also runs the race-built binary (--show, HOME = stop, cwd = start). non-trivial = every (chain, start, stop) triple (distinct by construction) whose result was compared with the reference", c17Depths(c), c17Configs, len(chains)),
 		"samples":             res.Samples,
 		"counters":            res.Counters,
 		"chains":              res.Counters["chains"],
